@@ -58,6 +58,7 @@ type row struct {
 	Leak       bool   `json:"leak"`
 	Entry      string `json:"entry"` // "start" | "maybe" (MaybeChild, then Start)
 	Calls      int    `json:"calls"` // Start is called this many times in the one process
+	Asof       string `json:"asof"`  // Config.UploadStartTime = now + this duration ("": zero value)
 	AppCrash   bool   `json:"appCrash"`
 	StartFail  string `json:"startFail"` // "none" | "logdir" | "dbgloop" | "noexe": how the start of the sidecar is made to fail
 	Hold       bool   `json:"hold"`      // keep the application / the stdin pipe alive until the go command was run
@@ -437,6 +438,9 @@ func runRow(t *testing.T, r *row) {
 		"VERIF_C16_URL=http://127.0.0.1:1/upload", "VERIF_C16_ENTRY=" + r.Entry}
 	if r.Kind == "row" {
 		env = append(env, "VERIF_C16_CALLS="+strconv.Itoa(r.Calls))
+	}
+	if r.Asof != "" {
+		env = append(env, "VERIF_C16_ASOF="+r.Asof)
 	}
 	if !noCfg {
 		env = append(env, "HOME="+home)
